@@ -191,8 +191,18 @@ def run_impl(case):
 
 
 # ---------------- Gallina ----------------
+def gname(s):
+    """a module name as a Coq string; names outside printable ASCII byte by byte (UTF-8), as the regex sees them"""
+    if all(32 <= ord(ch) < 127 for ch in s):
+        return gstr(s)
+    t = "Coq.Strings.String.EmptyString"
+    for b in reversed(s.encode("utf-8")):
+        t = f"(Coq.Strings.String.String (Coq.Strings.Ascii.ascii_of_nat {b}) {t})"
+    return t
+
+
 def gcell(c):
-    al = glist([f"({gstr(m)}, {gq(q)})" for m, q in c["alloc"]])
+    al = glist([f"({gname(m)}, {gq(q)})" for m, q in c["alloc"]])
     return f"(mkCell {fr.grect(c['rect'])} {al} {gnat(c['depth'])})"
 
 
@@ -327,8 +337,8 @@ def nontrivial(c):
 HEADER_H = """From FrameModel Require Import Num.QcTac Geometry.Rect Cases.Cmp Alloc.Alloc Alloc.Hist Cases.CmpAlloc.
 Open Scope Qc_scope."""
 
-MAX_CELLS = 96           # per allocation (the constructor's overlap check is quadratic)
-MAX_TOTAL = 420          # over all allocations of a history
+MAX_CELLS = 140          # per allocation (the constructor's overlap check is quadratic)
+MAX_TOTAL = 520          # over all allocations of a history
 
 
 def cells_obs(a):
@@ -363,8 +373,9 @@ def run_hist_impl(case):
     Rectangle.undefine_epsilon()
     Rectangle.set_epsilon(float(case["eps"]), float(case["aeps"]))
     try:
+        from harness.props import alloc_variants
         try:
-            A = [build_alloc(case["cells"])]
+            A = [alloc_variants.build(case)]
         except (AssertionError, ZeroDivisionError) as e:
             return {"init": None, "err": type(e).__name__}
         obs = {"init": {"cells": cells_obs(A[0])}, "steps": []}
@@ -480,7 +491,7 @@ def hist_to_coq(case, obs):
 def _gen_refine(rng, cells):
     ratios = [a[1] for c in cells for a in c["alloc"]] or [F(1, 2)]
     t = rng.choice([F(1), F(1), F(15, 16), F(1, 2), F(1, 4), F(0), rng.choice(ratios), rng.choice(ratios),
-                    F(rng.randrange(0, 17), 16)])
+                    1 - rng.choice(ratios), F(rng.randrange(0, 17), 16)])
     return ["refine", t, rng.choice([1, 1, 1, 1, 2, 2, 3, 0])]
 
 
